@@ -517,6 +517,18 @@ impl<'r, 'a, 'ast> Visit<'ast> for Coll<'r, 'a> {
 
 impl<'a> R<'a> {
     fn rw_type(&self, t: &syn::Type) -> Option<String> {
+        // R9c: whole-type substitution (`tyfull="Hierarchy<Arc<Relation>>=>Hier"`), compared on whitespace-normalised text
+        if let Some(spec) = self.opts.get("tyfull") {
+            let txt = norm(&t.to_token_stream().to_string());
+            for ent in spec.split(';') {
+                if let Some((from, to)) = ent.split_once("=>") {
+                    if norm(from) == txt {
+                        self.note(format!("R9 type `{}` -> prelude stand-in `{}`", from.trim(), to.trim()));
+                        return Some(to.trim().to_string());
+                    }
+                }
+            }
+        }
         // R9: String / str -> Str (opaque, equality only) when the unit asks for it
         if !self.opts.has_rw("str") {
             return None;
